@@ -141,7 +141,7 @@ def run_znorm(case):
         else:
             if len(wz) != len(xs):
                 raise Violation("filter-row-count", f"znormWindowFilter returned {len(wz)} values for {len(xs)}")
-    return {"classes": ["znorm"], "nontrivial": len(xs) >= 3}
+    return {"classes": ["znorm"] + (["spread_below_1e-9"] if sd < 1e-9 else []), "nontrivial": len(xs) >= 3}
 
 
 def run_rms(case):
@@ -154,7 +154,8 @@ def run_rms(case):
     want = math.sqrt(float(sum(Fraction(v) ** 2 for v in xs) / len(xs)))
     if not close(got, want):
         raise Violation("rms", f"rms({xs}) = {got}, expected {want}")
-    return {"classes": ["rms"], "nontrivial": len(set(xs)) >= 2}
+    cl = ["rms"] + (["no_positive_value"] if max(xs) <= 0 and min(xs) < 0 else []) + (["tiny_magnitude"] if 0 < max(abs(v) for v in xs) < 1e-6 else [])
+    return {"classes": cl, "nontrivial": len(set(xs)) >= 2}
 
 
 def run_pitch_measures(case):
@@ -284,6 +285,16 @@ def series(draw, vals=VALS, max_n=15):
     return xs
 
 
+@st.composite
+def scaled_series(draw):
+    """series() times a common factor: all-negative series, very small and very large magnitudes."""
+    xs = draw(series())
+    k = draw(st.sampled_from([1, 1, 1, -1, -1, 1e-10, -1e-10, 1e6, 3e-9, 1e-13, -1e-13]))
+    if k != 1 and draw(st.booleans()):
+        xs = [abs(v) for v in xs]  # one sign throughout
+    return [v * k for v in xs] if k != 1 else xs
+
+
 def median_cases():
     return st.builds(lambda s, w, p: {"series": s, "window": w, "pad": p}, series(), st.integers(0, 8), st.booleans())
 
@@ -335,8 +346,8 @@ CHECKS = [
           doc="all series of length <=6 (8) over {0,1,2} x window 0..8 x padding"),
     Check("median_random", run_median, strategy=lambda tier: median_cases(), quick_n=600, thorough_n=10000),
     Check("filter_rows", run_filter_rows, strategy=lambda tier: row_cases(), quick_n=300, thorough_n=5000),
-    Check("znorm", run_znorm, strategy=lambda tier: st.builds(lambda s: {"series": s}, series()), quick_n=500, thorough_n=8000),
-    Check("rms", run_rms, strategy=lambda tier: st.builds(lambda s: {"series": s}, series()), quick_n=300, thorough_n=5000),
+    Check("znorm", run_znorm, strategy=lambda tier: st.builds(lambda s: {"series": s}, scaled_series()), quick_n=500, thorough_n=8000),
+    Check("rms", run_rms, strategy=lambda tier: st.builds(lambda s: {"series": s}, scaled_series()), quick_n=300, thorough_n=5000),
     Check("pitch_measures", run_pitch_measures, strategy=lambda tier: pm_cases(), quick_n=800, thorough_n=12000),
     Check("pitch_errors", run_pitch_errors, strategy=lambda tier: pe_cases(), quick_n=600, thorough_n=10000),
     Check("load", run_load, strategy=lambda tier: load_cases(), quick_n=600, thorough_n=10000),
